@@ -515,6 +515,9 @@ def _is_declaration_not_function(code):
     return False
 
 
+_GENERIC_SPEC = re.compile(r"^(operator|assignment|read|write)\s*\(")
+
+
 def _use_statement(unit, line, code):
     mat = re.match(r"^use\s*(?:,\s*(?:non_)?intrinsic\s*)?(?:::)?\s*"
                    r"([a-z]\w*)\s*(.*)$", code)
@@ -537,7 +540,7 @@ def _use_statement(unit, line, code):
                 local, remote = [x.strip() for x in item.split("=>", 1)]
             else:
                 local = remote = item
-            if local.startswith(("operator", "assignment")):
+            if _GENERIC_SPEC.match(local):
                 continue
             names.append((local, remote))
     elif rest:
@@ -548,7 +551,7 @@ def _use_statement(unit, line, code):
 def _interface_block(unit, line, name, lines, idx):
     """Consumes lines up to END INTERFACE.  Declares the generic name and the
     procedures that have interface bodies; module procedures are references."""
-    if name and not name.startswith(("operator", "assignment")):
+    if name and not _GENERIC_SPEC.match(name):
         unit.decls.append(Decl(name, line, len(unit.decls), [], "interface"))
     depth = 0
     while idx < len(lines):
@@ -656,7 +659,7 @@ def _attribute_statement(unit, line, code):
         word, rest = mat.group(1), mat.group(2).strip()
         for item in _split_top(rest, ","):
             item = item.strip()
-            if not item or item.startswith(("operator", "assignment", "/")):
+            if not item or item.startswith("/") or _GENERIC_SPEC.match(item):
                 continue
             name = re.match(r"[a-z]\w*", item)
             if not name:
